@@ -138,6 +138,9 @@ def rand_case(rng, maxpix=36, dtype=None, allow_user=True, adj=None, scale=None)
                 k = (hi - lo) // (mx - mn)
                 case['vals'] = [lo + (v - mn) * k for v in case['vals']]
         case['dtype'] = dt
+    if rng.random() < 0.3:
+        # what a user gets from arr.T, np.asfortranarray, a strided slice or a read-only buffer
+        case['layout'] = rng.choice(['F', 'T', 'strided', 'readonly'])
     rand_params(rng, case, allow_user)
     if case['dtype'] not in ('float64', 'float32') and case.get('minv') is not None and abs(case['minv']) < 2 ** 40 and rng.random() < 0.4:
         case['minv_frac'] = True
